@@ -10,7 +10,7 @@
     Graphs: node ids pairwise distinct ([NoDup (node_ids g)], guaranteed by networkx); adjacency is symmetric by
     construction ([LGraph.adj]). *)
 From Coq Require Import List NArith ZArith Bool Arith Permutation Sorted.
-From SK Require Import lib.LGraph model.C12_Model model.C12_Trace model.C12_State proof.C12_Search proof.C12_Proof proof.C12_Prune proof.C12_Enum proof.C12_Sorted proof.C12_Component proof.C12_Mol proof.C12_State proof.C12_Trace proof.C12_LastSize.
+From SK Require Import lib.LGraph model.C12_Model model.C12_Trace model.C12_State proof.C12_Search proof.C12_Proof proof.C12_Prune proof.C12_Enum proof.C12_Sorted proof.C12_Component proof.C12_Mol proof.C12_State proof.C12_Trace proof.C12_LastSize proof.C12_StateRaw.
 Import ListNotations.
 
 (** ** 0. the specification: a common induced sub-graph mapping, written out.
@@ -475,7 +475,7 @@ Print Assumptions C12_reads_inverse.
 (** THE PROPERTY OVER HISTORIES: whatever happened to the object before, after find_common_subgraph(G1, G2, mcs) and any
     number of reads the three direction requests answer with mappings that are valid for (G1, G2) as selected and pruned by this
     object's options; the two directions are mutually inverse; in maximum mode all sizes equal last_size, no common induced
-    mapping is larger and every one of that size is returned *)
+    mapping is larger and every one of that size is returned; in all-sizes mode every non-empty common induced mapping is returned *)
 Theorem C12_history_valid :
   forall (cfg : config) (st : mstate) (ops : list mop) (g1 g2 : rgraph) (mcs : bool) (rds : list mop),
   NoDup (node_ids g1) -> NoDup (node_ids g2) -> forallb is_read rds = true ->
@@ -490,7 +490,9 @@ Theorem C12_history_valid :
        (forall m, In m l12 -> length m = s_last stf) /\
        (forall m, common_induced nm edge_match (pr g1) (pr g2) m -> (length m <= s_last stf)%nat) /\
        (forall m, common_induced nm edge_match (pr g1) (pr g2) m -> length m = s_last stf -> (1 <= s_last stf)%nat ->
-          exists m', In m' l12 /\ Permutation m m')).
+          exists m', In m' l12 /\ Permutation m m')) /\
+    (mcs = false ->
+       forall m, common_induced nm edge_match (pr g1) (pr g2) m -> (1 <= length m)%nat -> exists m', In m' l12 /\ Permutation m m').
 Proof. exact history_find_valid. Qed.
 Print Assumptions C12_history_valid.
 
@@ -505,7 +507,7 @@ Theorem C12_facade_sides :
   | SIts => m_step cfg st (MRc x sd mcs false) = m_step cfg st (MFind (rc_1 x) (rc_2 x) mcs)
   | SBad => fst (m_step cfg st (MRc x sd mcs false)) = s_init
   end.
-Proof. intros cfg st x [] mcs; try (apply rc_is_find; reflexivity); reflexivity. Qed.
+Proof. exact facade_sides. Qed.
 Print Assumptions C12_facade_sides.
 
 (** component mode after any history: exactly one stored mapping, reported G1 -> G2 (flag true), valid for the selected sides
@@ -602,3 +604,58 @@ Theorem C12_last_size_all_sizes :
   (1 <= last /\ (exists m, In m maps /\ length m = last) /\ forall m, In m maps -> last <= length m).
 Proof. exact last_size_all_sizes. Qed.
 Print Assumptions C12_last_size_all_sizes.
+
+(** ** 20. (round 5) prune_automorphisms=True inside histories ([MFindAuto]: VF2's first mapping per host node set is an input,
+    validated by [apply_choices]): after any history, with an accepted parameter the cache holds exactly the chosen
+    representatives, with the size and orientation flag of the unpruned search -- so C12_prune_auto_choices (validity, pairwise
+    different host node sets, sortedness, completeness up to host node sets) and C12_reads_inverse apply to every read *)
+Theorem C12_history_prune_auto :
+  forall (cfg : config) (st : mstate) (ops : list mop) (g1 g2 : rgraph) (mcs : bool) (choices : list mapping) (rds : list mop)
+         (kept : list mapping),
+  forallb is_read rds = true ->
+  apply_choices (r_maps (find_common_subgraph (c_defs cfg) (c_prune cfg) (c_wc cfg) (project cfg g1) (project cfg g2) mcs)) choices = Some kept ->
+  m_run cfg st (ops ++ MFindAuto g1 g2 mcs choices :: rds) =
+  {| s_maps := kept;
+     s_last := r_last (find_common_subgraph (c_defs cfg) (c_prune cfg) (c_wc cfg) (project cfg g1) (project cfg g2) mcs);
+     s_flag := Some (r_pattern_is_g1 (find_common_subgraph (c_defs cfg) (c_prune cfg) (c_wc cfg) (project cfg g1) (project cfg g2) mcs)) |}.
+Proof. exact history_auto. Qed.
+Print Assumptions C12_history_prune_auto.
+
+(** ** 21. (round 5) THE PROPERTY OVER HISTORIES ON THE CALLER'S GRAPHS.  [raw_valid cfg ga gb m]: [m] is a function, injective,
+    maps atoms of ga to atoms of gb whose configured attributes agree after the defaults (data.get(name, default)), with every
+    bond between mapped atoms present on both sides with matching configured bond attributes (float() equality, or == for values
+    float() rejects; missing matches only missing) or absent on both sides -- and, with prune_wc, maps no atom whose
+    element_key attribute equals wildcard_element.  For an object built by the constructor, whatever calls it served before:
+    after find_common_subgraph(G1, G2, mcs) and any reads, every G1->G2 answer is valid for (G1, G2), every G2->G1 answer for
+    (G2, G1), the two lists are position-wise inverse; maximum mode: all sizes equal last_size and no valid mapping is larger;
+    all-sizes mode: every non-empty valid mapping is returned. *)
+Theorem C12_raw_valid_meaning :
+  forall (cfg : config) (ga gb : rgraph) (m : mapping),
+  raw_valid cfg ga gb m <->
+  (NoDup (map fst m) /\ NoDup (map snd m) /\
+   (forall p h, In (p, h) m ->
+      exists a b, label ga p = Some a /\ label gb h = Some b /\ node_match_raw (c_names cfg) (c_defs cfg) b a = true) /\
+   (forall p h p' h', In (p, h) m -> In (p', h') m -> p <> p' ->
+      match LGraph.adj ga p p', LGraph.adj gb h h' with
+      | Some b, Some b' => edge_match_raw (c_enames cfg) b' b = true
+      | None, None => True
+      | _, _ => False
+      end)) /\
+  (c_prune cfg = true -> forall p h, In (p, h) m -> raw_wildcard cfg ga p = false /\ raw_wildcard cfg gb h = false).
+Proof. exact (fun cfg ga gb m => iff_refl _). Qed.
+Print Assumptions C12_raw_valid_meaning.
+
+Theorem C12_history_valid_raw :
+  forall (a : ctor_args) (cfg : config) (st : mstate) (ops : list mop) (g1 g2 : rgraph) (mcs : bool) (rds : list mop),
+  mk_config a = Some cfg ->
+  NoDup (node_ids g1) -> NoDup (node_ids g2) -> forallb is_read rds = true ->
+  let stf := m_run cfg st (ops ++ MFind g1 g2 mcs :: rds) in
+  exists l12 l21, m_get stf D12 = Some l12 /\ m_get stf D21 = Some l21 /\
+    l21 = map invert_mapping l12 /\ l12 = map invert_mapping l21 /\
+    (forall m, In m l12 -> raw_valid cfg g1 g2 m /\ 1 <= length m) /\
+    (forall m, In m l21 -> raw_valid cfg g2 g1 m /\ 1 <= length m) /\
+    (mcs = true -> (forall m, In m l12 -> length m = s_last stf) /\
+                   (forall m, raw_valid cfg g1 g2 m -> length m <= s_last stf)) /\
+    (mcs = false -> forall m, raw_valid cfg g1 g2 m -> 1 <= length m -> exists m', In m' l12 /\ Permutation m m').
+Proof. exact history_valid_raw. Qed.
+Print Assumptions C12_history_valid_raw.
